@@ -419,7 +419,7 @@ fn glob(p: &[u8], s: &[u8]) -> bool {
 /// iteration (cursor 0 ... returned cursor 0, same MATCH/TYPE) every element present from the first
 /// to the last call is returned; nothing is returned that does not exist at the time of the call or
 /// fails the filters.  A miss after an addition/deletion below the position reached so far is the
-/// known class scan-shift.
+/// (former) class scan-shift - repaired by e3de5de, no longer excused.
 pub fn judge(c: &Case, outs: &[Vec<Tok>]) -> Vec<String> {
     let mut fails = vec![];
     if !(c.id.starts_with("e-") || c.id.starts_with("b-")) { return fails; }
@@ -493,13 +493,13 @@ pub fn judge(c: &Case, outs: &[Vec<Tok>]) -> Vec<String> {
                         if simple_pat(&pat) {
                             let missing: Vec<&Vec<u8>> = it.required.iter().filter(|x| !it.returned.contains(*x)).collect();
                             if !missing.is_empty() {
-                                let class = if it.shifted { " class=scan-shift" } else { "" };
+                                let class = "";      // no exception any more: the cursor (a hash) keeps its meaning under churn (e3de5de)
                                 fails.push(format!("FAIL case={} op={} a full iteration ({} calls) never returned {:?}, present throughout{}", c.id, k, it.calls, String::from_utf8_lossy(missing[0]), class));
                             }
                         }
                         it.active = false;
                     } else {
-                        it.boundary = vis.get(next as usize).map(|x| (*x).clone());
+                        let _ = &vis;
                         if it.calls > 3000 { fails.push(format!("FAIL case={} op={} iteration does not terminate", c.id, k)); it.active = false; }
                     }
                 }
